@@ -56,3 +56,34 @@ def consistent_polarity(ev):
         if pol.setdefault(var.name, val.star) != val.star:
             return None
     return pol
+
+
+def structured_event(rng, g):
+    """Events of the shape {A_b = a, C_a = c, C = c'}: a redundantly subscripted observation whose value equals the value
+    another world sets it to, and a descendant seen in both worlds - exercises relabelling followed by merging in make-cg."""
+    nodes = g["nodes"]
+    children = {v: [b for a, b in g["dir"] if a == v] for v in nodes}
+    parents_with_children = [v for v in nodes if children[v]]
+    if not parents_with_children:
+        return None
+    a = rng.choice(parents_with_children)
+    c = rng.choice(children[a])
+    anc_a = {a}
+    todo = [a]
+    while todo:
+        x = todo.pop()
+        for p_, q in g["dir"]:
+            if q == x and p_ not in anc_a:
+                anc_a.add(p_); todo.append(p_)
+    others = [v for v in nodes if v not in anc_a and v != c]
+    sa = rng.random() < 0.3
+    ev = []
+    if others and rng.random() < 0.8:
+        b = rng.choice(others)
+        ev.append([{"k": "C", "n": GE.ALPHA[a], "s": None, "i": [[GE.ALPHA[b], rng.random() < 0.3]]}, [GE.ALPHA[a], sa]])
+    else:
+        ev.append([{"k": "V", "n": GE.ALPHA[a], "s": None}, [GE.ALPHA[a], sa]])
+    sc = rng.random() < 0.5
+    ev.append([{"k": "C", "n": GE.ALPHA[c], "s": None, "i": [[GE.ALPHA[a], sa if rng.random() < 0.8 else not sa]]}, [GE.ALPHA[c], sc]])
+    ev.append([{"k": "V", "n": GE.ALPHA[c], "s": None}, [GE.ALPHA[c], (not sc) if rng.random() < 0.7 else sc]])
+    return ev
